@@ -375,6 +375,7 @@ let gen_sources r ~tier oc =
     List.iter (fun name -> recipe ~timeout:t name n)
       [ "parens"; "arrays"; "hashes"; "unary"; "nots"; "sum"; "concat"; "index"; "attr"; "filters"; "ternary"; "tags"; "text" ];
     List.iter (fun name -> recipe ~timeout:t name (min n 10000)) [ "ifs"; "fors"; "blocks"; "names" ]) depths;
+  recipe ~timeout:10 "manyattrs" 1200; recipe ~timeout:10 "manyattrs" 2500;
   if thorough then begin
     (* where the Go stack (1 GB) gives out: sources of 1-4 MB *)
     List.iter (fun (name, n) -> recipe ~timeout:120 name n)
